@@ -120,6 +120,9 @@ pub enum Cmd {
     /// Markdown only. on: `<chunks>; set -x|-v` then `exit N`; off: `set +x|+v; <chunks>`.
     /// The trace of the user's own `exit N` / `set +x` is part of what the command wrote.
     Trace { flag: String, on: bool, chunks: Vec<Chunk> },
+    /// the last line of the command ends in a backslash (one of `BACKSLASH_FORMS`); nothing is
+    /// appended, the exit code is the command's own
+    Backslash { form: String },
 }
 
 #[derive(Clone, Debug, PartialEq, Serialize, Deserialize)]
@@ -250,6 +253,37 @@ fn strip_judgeable(raw: &[u8], keep: bool) -> bool {
         return false;
     }
     !strip_csi(&b).contains(&0x1b)
+}
+
+/// strip_ansi_escaping on input with truncated / malformed sequences: judged only by a clause that
+/// does not depend on how much of a malformed sequence goes (valid UTF-8 without C1 required)
+fn strip_line_judgeable(raw: &[u8], keep: bool) -> bool {
+    let b = if keep { raw.to_vec() } else { crlf_to_lf(raw) };
+    match std::str::from_utf8(&b) {
+        Ok(t) => !t.chars().any(|c| (0x80..0xa0).contains(&(c as u32))),
+        Err(_) => false,
+    }
+}
+
+/// every LF of the input survives, and every line (and unterminated tail) that contains no ESC at
+/// all is byte-identical in the output, at the same line number
+fn strip_line_check(raw: &[u8], keep: bool, got: &[u8]) -> Result<(), (String, String)> {
+    let a = if keep { raw.to_vec() } else { crlf_to_lf(raw) };
+    let lf = |b: &[u8]| b.iter().filter(|c| **c == b'\n').count();
+    if lf(&a) != lf(got) {
+        return Err((
+            if lf(got) < lf(&a) { "line-break-lost".into() } else { "line-break-added".into() },
+            format!("{} line breaks written, {} recorded", lf(&a), lf(got)),
+        ));
+    }
+    let il: Vec<&[u8]> = a.split(|c| *c == b'\n').collect();
+    let ol: Vec<&[u8]> = got.split(|c| *c == b'\n').collect();
+    for (i, (x, y)) in il.iter().zip(ol.iter()).enumerate() {
+        if !x.contains(&0x1b) && x != y {
+            return Err(("clean-line-changed".into(), format!("line {i} has no ESC and was written as [{}] but recorded as [{}]", show(&x[..x.len().min(60)]), show(&y[..y.len().min(60)]))));
+        }
+    }
+    Ok(())
 }
 
 fn transform(raw: &[u8], keep: bool, strip: bool) -> Vec<u8> {
@@ -592,7 +626,7 @@ fn gen_case(tier: Tier, k: u64, rng: &mut Rng) -> Case {
         case.tests = vec![T { cmd: Cmd::Chunks { chunks: vec![Chunk { fd: 1, data: p }] }, code: 0, ifs: None, pre: None, fail_last: false }];
         return case;
     }
-    let fam = rng.weighted(&[22, 8, 26, 18, 12, 4, 5, 3, 2, 6, 14, 10, 8, 12]);
+    let fam = rng.weighted(&[22, 8, 26, 18, 12, 4, 5, 3, 2, 6, 14, 10, 8, 12, 9, 10, 8]);
     match fam {
         0 => {
             case.family = "render-direct".into();
@@ -804,6 +838,112 @@ fn gen_case(tier: Tier, k: u64, rng: &mut Rng) -> Case {
                 }
             }
         }
+        14 => {
+            // a long CR-free head (around 8 KiB, 16 KiB, 64 KiB, so that the first CR LF pair lies
+            // after or across such a boundary) followed by CR LF lines
+            case.strip = None;
+            case.keep_crlf = *rng.pick(&[None, None, Some(false)]);
+            let base = *rng.pick(&[8192usize, 8192, 8192, 16384, 65536, 4096, 32768]);
+            let delta = rng.below(9) as isize - 4;
+            // the CR of the first pair sits at offset `base + delta - 1`
+            let head_len = (base as isize + delta - 1).max(16) as usize;
+            let mut p = Payload::default();
+            let line = b"0123456789abcde\n";
+            p.push(line, (head_len / line.len()) as u32);
+            let rest = head_len % line.len();
+            if rest > 0 {
+                let mut filler = vec![b'x'; rest - 1];
+                filler.push(if rng.bool() { b'y' } else { b'\n' });
+                p.push(&filler, 1);
+            }
+            p.push(b"\r\n", 1);
+            p.push(b"last line\r\n", rng.range(1, 3) as u32);
+            let chunks = vec![Chunk { fd: 1 + rng.below(2) as u8, data: p }];
+            match rng.below(4) {
+                0 | 1 => {
+                    case.family = "crlf-late-render".into();
+                    case.mode = "render".into();
+                }
+                2 => case.family = "crlf-late-markdown".into(),
+                _ => {
+                    case.family = "crlf-late-cram".into();
+                    case.mode = "cram".into();
+                }
+            }
+            case.tests = vec![T { cmd: Cmd::Chunks { chunks }, code: 0, ifs: None, pre: None, fail_last: false }];
+        }
+        15 => {
+            // truncated / malformed escape sequences under strip_ansi_escaping
+            case.strip = Some(true);
+            let keep = case.keep_crlf == Some(true);
+            let payload = |rng: &mut Rng| {
+                let mut p = Payload::default();
+                for _ in 0..rng.range(2, 6) {
+                    let piece: &[u8] = match rng.below(14) {
+                        0 => b"status:\x1b[1;31\nfailed in 3 steps\n",
+                        1 => b"cut\x1b[\nnext line\n",
+                        2 => b"crlf\x1b[1;\r\nafter crlf\n",
+                        3 => b"tab\x1b[\tafter tab\n",
+                        4 => "nonascii\x1b[é text\n".as_bytes(),
+                        5 => b"inter\x1b[1 \nz line\n",
+                        6 => b"osc\x1b]0;title without end\nrest of it\n",
+                        7 => b"two\x1b[31\x1b[0m mixed\nplain after\n",
+                        8 => b"\x1b[\n\x1b[\nthird\n",
+                        9 => b"\x1b[32mwell formed\x1b[0m\n",
+                        10 => b"esc-lf\x1b\nline\n",
+                        _ => b"clean line with letters\n",
+                    };
+                    p.push(piece, 1);
+                }
+                match rng.below(4) {
+                    0 => p.push(b"end\x1b", 1),
+                    1 => p.push(b"tail\x1b[1;3", 1),
+                    2 => p.push(b"tail\x1b[", 1),
+                    _ => {}
+                }
+                p
+            };
+            let _ = keep;
+            match rng.below(5) {
+                0 | 1 => {
+                    case.family = "strip-malformed-render".into();
+                    case.mode = "render".into();
+                    case.tests = vec![T { cmd: Cmd::Chunks { chunks: vec![Chunk { fd: 1, data: payload(rng) }] }, code: 0, ifs: None, pre: None, fail_last: false }];
+                }
+                w => {
+                    if w == 4 {
+                        case.family = "strip-malformed-cram".into();
+                        case.mode = "cram".into();
+                    } else {
+                        case.family = "strip-malformed-markdown".into();
+                    }
+                    for _ in 0..rng.range(1, 2) {
+                        let chunks = vec![Chunk { fd: 1, data: payload(rng) }, Chunk { fd: 2, data: payload(rng) }];
+                        case.tests.push(T { cmd: Cmd::Chunks { chunks }, code: gen_code(rng), ifs: None, pre: None, fail_last: false });
+                    }
+                }
+            }
+        }
+        16 => {
+            // a command whose last line ends in a backslash, at the first / middle / last position
+            let cram = rng.chance(3, 4);
+            case.family = if cram { "backslash-cram".into() } else { "backslash-markdown".into() };
+            if cram {
+                case.mode = "cram".into();
+            }
+            case.strip = None;
+            let n = rng.range(1, 4);
+            let at = rng.below(n);
+            for i in 0..n {
+                if i == at || rng.chance(1, 4) {
+                    let (form, _, code) = *rng.pick(BACKSLASH_FORMS);
+                    case.tests.push(T { cmd: Cmd::Backslash { form: form.into() }, code, ifs: None, pre: None, fail_last: false });
+                } else {
+                    let chunks = vec![Chunk { fd: 1 + rng.below(2) as u8, data: Payload::lit(format!("plain {i}\n").as_bytes()) }];
+                    case.tests.push(T { cmd: Cmd::Chunks { chunks }, code: gen_code(rng), ifs: None, pre: None, fail_last: false });
+                }
+            }
+        }
         13 => {
             // `set -e` and friends in one Markdown test, carried into the following ones: every
             // test keeps its own exit code (0 and non-zero, by `exit N` and by a failing last command)
@@ -925,6 +1065,7 @@ fn build(t: &T, idx: usize, n_tests: usize, case: &Case, dirs: &Dirs) -> std::io
     let (mut out, mut err, mut merged) = (vec![], vec![], vec![]);
     let mut expect_lines = None;
     let mut exits = false;
+    let mut own_end = false;
     let mut code = t.code;
     let write = |name: String, data: &Payload| -> std::io::Result<String> {
         let p = pdir.join(name);
@@ -973,6 +1114,14 @@ fn build(t: &T, idx: usize, n_tests: usize, case: &Case, dirs: &Dirs) -> std::io
             lines.push(format!("cat {fo} &\ncat {fe} >&2 &\nwait"));
             out = o.bytes();
             err = e.bytes();
+        }
+        Cmd::Backslash { form } => {
+            let (text, printed, c) = BACKSLASH_FORMS.iter().find(|(t, _, _)| t == form).copied().unwrap_or(("true \\", "", 0));
+            lines.push(text.to_string());
+            out.extend_from_slice(printed.as_bytes());
+            merged.extend_from_slice(printed.as_bytes());
+            code = c;
+            own_end = true;
         }
         Cmd::Trace { flag, on, chunks } => {
             let verbose = flag == "v";
@@ -1025,7 +1174,7 @@ fn build(t: &T, idx: usize, n_tests: usize, case: &Case, dirs: &Dirs) -> std::io
             code = *c;
         }
     }
-    if !exits {
+    if !exits && !own_end {
         if cram || t.fail_last || (t.code != 0 && idx % 2 == 1) {
             lines.push(format!("(exit {})", t.code));
         } else {
@@ -1123,6 +1272,9 @@ fn evidence(case: &Case) -> (bool, u64, Vec<String>) {
                 classes.insert("divider");
                 classes.insert("forge");
             }
+            Cmd::Backslash { .. } => {
+                classes.insert("backslash-end");
+            }
             Cmd::Trace { chunks, .. } => {
                 classes.insert("trace");
                 for c in chunks {
@@ -1186,7 +1338,7 @@ fn check_direct(case: &Case) -> Checked {
     }
     let keep = case.keep_crlf == Some(true);
     let strip = case.strip == Some(true);
-    if strip && !strip_judgeable(&raw, keep) {
+    if strip && !strip_judgeable(&raw, keep) && !strip_line_judgeable(&raw, keep) {
         return Checked::out_of_scope("strip_ansi_escaping with bytes the statement says nothing about");
     }
     let tc = testcase(
@@ -1197,6 +1349,12 @@ fn check_direct(case: &Case) -> Checked {
         Ok(g) => g.to_vec(),
         Err(e) => return Checked::violated("C13/render_output/error", format!("render_output failed: {e}")),
     };
+    if strip && !strip_judgeable(&raw, keep) {
+        return match strip_line_check(&raw, keep, &got) {
+            Ok(()) => Checked::held().bucket("direct:render_output").bucket("strip:malformed-sequences"),
+            Err((cause, why)) => Checked::violated(format!("C13/render_output/strip-malformed:{cause}"), format!("render_output(strip, keep_crlf={:?}): {why}", case.keep_crlf)),
+        };
+    }
     let exp = transform(&raw, keep, strip);
     if got != exp {
         let (p, cause) = diff_cause(&raw, &exp, &got, keep, strip);
@@ -1239,6 +1397,17 @@ fn shellopt_class(case: &Case) -> Option<&'static str> {
         Some("other")
     }
 }
+
+/// (command text, what it prints to stdout, its exit code) when the line is the last one typed
+const BACKSLASH_FORMS: &[(&str, &str, u8)] = &[
+    ("echo foo \\", "foo\n", 0),
+    ("echo foo \\ ", "foo  \n", 0),
+    ("echo a; \\", "a\n", 0),
+    ("echo one\necho two \\", "one\ntwo\n", 0),
+    ("true \\", "", 0),
+    ("false \\", "", 1),
+    ("(exit 7) \\", "", 7),
+];
 
 fn check_exec(env: &Env, case: &Case) -> Checked {
     if ifs_class(case).is_some() && case.tests.iter().any(|t| matches!(t.cmd, Cmd::Concurrent { .. })) {
@@ -1311,7 +1480,8 @@ fn check_exec_inner(env: &Env, case: &Case) -> Checked {
     if strip {
         for b in &built {
             if let Expect::Exact { out, err, merged } = &b.expect {
-                let ok = if combined { strip_judgeable(merged, keep) } else { strip_judgeable(out, keep) && strip_judgeable(err, keep) };
+                let j = |b: &[u8]| strip_judgeable(b, keep) || strip_line_judgeable(b, keep);
+                let ok = if combined { j(merged) } else { j(out) && j(err) };
                 if !ok {
                     return Checked::out_of_scope("strip_ansi_escaping with bytes the statement says nothing about");
                 }
@@ -1345,7 +1515,7 @@ fn check_exec_inner(env: &Env, case: &Case) -> Checked {
                 return Checked::held().bucket("cram:error-accepted").bucket("near-miss:cram-refused-marker-like-output");
             }
             return Checked::violated(
-                format!("C13/{mode}/executor-error/{}", error_class(&e)),
+                format!("C13/{mode}/executor-error/{}{}", error_class(&e), if strip { "[strip]" } else { "" }),
                 format!("benign commands, but the executor returned an error: {}", describe_error(&e)),
             );
         }
@@ -1387,6 +1557,12 @@ fn check_exec_inner(env: &Env, case: &Case) -> Checked {
                 let (ro, re) = if combined { (merged, &empty) } else { (out, err) };
                 let (eo, ee) = (transform(ro, keep, strip), transform(re, keep, strip));
                 for (name, raw, exp, got, other) in [("stdout", ro, &eo, got_out, &ee), ("stderr", re, &ee, got_err, &eo)] {
+                    if strip && !strip_judgeable(raw, keep) {
+                        if let Err((cause, why)) = strip_line_check(raw, keep, got) {
+                            return Checked::violated(format!("C13/{mode}/{name}/strip-malformed:{cause}"), format!("test {i}: {why}"));
+                        }
+                        continue;
+                    }
                     if exp.as_slice() != got {
                         if cram && strip && transform(raw, keep, false) == got {
                             return Checked::violated(
@@ -1571,7 +1747,7 @@ fn shrink_case(case: &Case) -> Vec<Case> {
                     v.push(with(Cmd::Both { out: out.clone(), err: p }));
                 }
             }
-            Cmd::Status { .. } | Cmd::Forge { .. } | Cmd::Trace { .. } => {}
+            Cmd::Status { .. } | Cmd::Forge { .. } | Cmd::Trace { .. } | Cmd::Backslash { .. } => {}
         }
         if case.tests[i].code != 0 {
             let mut c = case.clone();
@@ -1626,6 +1802,7 @@ fn sample_of(case: &Case) -> Value {
                 Cmd::Concurrent { out_lines, err_lines } => json!(format!("{out_lines} lines to fd 1 || {err_lines} lines to fd 2")),
                 Cmd::Both { out, err } => json!(format!("cat {} & cat {} >&2 & wait", out.describe(), err.describe())),
                 Cmd::Forge { exit_with } => json!(format!("forged divider lines for this and all later tests; exit {exit_with}")),
+                Cmd::Backslash { form } => json!({ "last line ends in a backslash": form }),
                 Cmd::Trace { flag, on, chunks } => json!({
                     "trace": format!("set {}{flag}", if *on { "-" } else { "+" }),
                     "position": if *on { "last before exit" } else { "first" },
@@ -1675,6 +1852,9 @@ impl Monitor for C13 {
             ("family:strip-c0-markdown".into(), f(1, 50)),
             ("family:trace-markdown".into(), f(2, 100)),
             ("family:errexit-markdown".into(), f(3, 150)),
+            ("family:crlf-late-render".into(), f(1, 60)),
+            ("class:backslash-end".into(), f(2, 100)),
+            ("strip:malformed-sequences".into(), f(1, 50)),
             ("sequence>10".into(), f(2, 100)),
         ];
         p.assumptions = vec![
